@@ -67,8 +67,8 @@ CHECKS = [
              'circle/ellipse/polygon kernels lose nothing (polygon: via the parity theorem); with the to_mask glue every cell (j,i) of a simple-shape mask is the sampled membership of pixel '
              '(ixmin+i, iymin+j) and the mask box is bounding_box; for EVERY region expression (annuli, compounds of any depth) the centre mask is 0/1, has the expression box, and is 1 exactly '
              'where the pixel centre is in the expression point set (C08.center_mask_spec, induction); mode table. '
-             'Validated only: the circle kernel fast paths (sqrt) vs sampling, and that the compiled .so implements the .pyx.',
-     'note': 'Partial in one respect: the circle kernel fast paths are not in the executable model (differential run only). Trusted: Lean kernel/Mathlib/3 std axioms; hand model MaskGen.lean tied to the '
+             'the circle kernel fast paths (sqrt, over R) are proved to agree with sampling (triangle inequality). Validated only: that the compiled .so implements the .pyx.',
+     'note': 'Trusted: Lean kernel/Mathlib/3 std axioms; hand model MaskGen.lean tied to the '
              'compiled kernels + to_mask glue by exact comparison of recovered sample counts; boundary sub-samples (exact distance < 1e-9) excepted.'},
     {'property_id': 'C08',
      'technique': 'Lean 4 theorems by structural induction over region expressions; padding/placement algebra with omega; correspondence run',
